@@ -101,11 +101,13 @@ struct ArrayAd
 		case K_SETCOUNT: s.c.SetCount(size_t(o.a)); break;
 		case K_SETCOUNT_V: { E x(o.b + 50); s.c.SetCount(size_t(o.a), x); break; }
 		case K_COPY_CTOR: { Cont t(s.c); (void)t; break; }
-		case K_ASSIGN_AUX: s.c = s.aux; break;
+		case K_ASSIGN_AUX: assign(s, std::integral_constant<bool, IntCap == 0>()); break;
 		case K_AUX_ADD: { E x(o.a + 100); s.aux.AddBack(static_cast<const E&>(x)); break; }
 		default: break;
 		}
 	}
+	static void assign(St& s, std::true_type) { s.c = s.aux; }
+	static void assign(St& s, std::false_type) { s.c.Shrink(size_t(3)); }   // Array with internal capacity: assignment needs nothrow-relocatable items
 	static void snap1(const Cont& c, Snap& v) { v.push_back(int64_t(c.GetCount())); for (const E& e : c) v.push_back(e.Value()); }
 	static void snap(const St& s, Snap& v) { snap1(s.c, v); v.push_back(-7); snap1(s.aux, v); }
 	static bool relaxed(const Op&) { return false; }
@@ -507,6 +509,8 @@ int main()
 		bool complete = (mode == "t"); bool done = false;
 #if PART == 0 || PART == 1
 		if (cfg == "array_ic4" && cat == "N") { go<ArrayAd<kit::ElemNtm, 4>>(seed, nops, complete); done = true; }
+		if (cfg == "array_ic4" && cat == "C") { go<ArrayAd<kit::ElemCpo, 4>>(seed, nops, complete); done = true; }
+		if (cfg == "array_ic4" && cat == "T") { go<ArrayAd<kit::ElemThm, 4>>(seed, nops, complete); done = true; }
 #endif
 		if (!done)
 		{
